@@ -587,3 +587,50 @@ def run_threads(scn, programs, sched_spec, rnd, observer=None, plans=None, yield
 
     sc.run([mk(i) for i in range(n)])
     return interp, runs, sc, states
+
+
+class Direct:
+    """Single-threaded execution in the calling thread (no scheduler): used by the fault-enumeration
+    checks, which run hundreds of short variants per scenario."""
+
+    def __init__(self, scn, observer=None):
+        self.scn = scn
+        self.interp = Interp(scn, observer)
+        self.state = seams.install(seams.SeamState())
+        self.state.enabled = False
+        self.interp.world.build()
+        self.state.enabled = True
+        self.run = self.interp.start_thread(0)
+
+    def reset_faults(self, plan=None):
+        self.state.plan = dict(plan or {})
+        self.state.counts = {}
+        self.state.fired = []
+
+    def close(self):
+        seams.uninstall()
+
+
+def in_fresh_thread(fn, *args, timeout=170.0):
+    """Run fn(*args) in a new real thread and return its result.  Exceptions that cross C frames of
+    jaxlib's tree_flatten leak C-recursion depth in the thread state (observed: RecursionError at a
+    shallow stack after a few hundred injected BaseExceptions); a fresh thread state per scenario keeps
+    the simulator itself healthy."""
+    import threading
+
+    box = {}
+
+    def go():
+        try:
+            box["r"] = fn(*args)
+        except BaseException as e:  # re-raised in the caller
+            box["e"] = e
+
+    t = threading.Thread(target=go, daemon=True)
+    t.start()
+    t.join(timeout)
+    if t.is_alive():
+        raise HarnessError("scenario thread did not finish")
+    if "e" in box:
+        raise box["e"]
+    return box["r"]
